@@ -18,7 +18,7 @@ RULE = ("histories: one data set entered (a) at construction, (b) by fill one va
         "non-trivial = >= 2 entry paths compared, >= 1 value outside the bins, >= 1 value on / one ulp beside an edge")
 ASSUMPTIONS = [
     "exact comparison for int64/float64 contents with dyadic weights; statistics are not part of C03's comparison",
-    "fill(NaN) is judged against 'NaN is skipped' (known finding fill.nan_value)",
+    "fill(NaN) is judged against 'NaN is skipped' (known finding fill.nan_value, the only one left)",
 ]
 
 
